@@ -824,7 +824,7 @@ Definition on_ok (on : option Z) : bool := match on with Some n => (0 <=? n) && 
 Lemma on_ok_sound on : on_ok on = true -> forall n, on = Some n -> 0 <= n <= 999999999.
 Proof. intros H n ->. cbn in H. lia. Qed.
 
-(* the whole hypothesis set of [general_ndt_roundtrip] as one computable test *)
+(* all premises of [general_ndt_roundtrip] as one computable test *)
 Definition general_ndt_check (dn : Z) (t : Model.Time.ntime) (on : option Z) (items : list Item) : bool :=
   let Y := year_of_dn dn in let IY := fst (iso_of_dn dn) in
   on_ok on &&
